@@ -1,1 +1,782 @@
-// stub
+// C13 — Mempool keeps nonce order and never duplicates or silently loses a transaction.
+// Explicit-state search over the real `Mempool` (child module of `crate::mempool`, so the inner
+// containers are readable): every sequence of inserts (with current / stale chain views),
+// invalid-removals, chain changes, maintenance runs and clock advances up to a depth. A state is
+// the event history; each transition replays it on a fresh mempool under a paused tokio clock.
+#![allow(clippy::all, clippy::pedantic, dead_code, unused_imports)]
+
+use std::{
+    collections::{
+        BTreeMap,
+        BTreeSet,
+        HashMap,
+    },
+    sync::Arc,
+};
+
+use astria_core::{
+    crypto::SigningKey,
+    primitive::v1::{
+        asset::IbcPrefixed,
+        TransactionId,
+    },
+    protocol::{
+        fees::v1::FeeComponents,
+        transaction::v1::{
+            action::{
+                FeeChange,
+                Transfer,
+            },
+            Action,
+        },
+    },
+};
+use cnidarium::{
+    Snapshot,
+    StateDelta,
+};
+use tendermint::abci::types::ExecTxResult;
+
+use super::{
+    transactions_container::{
+        TransactionsContainer as _,
+        TransactionsForAccount as _,
+    },
+    Mempool,
+    RemovalReason,
+    TransactionStatus,
+    TX_TTL,
+};
+#[path = "/verif/engine/mod.rs"]
+mod engine;
+
+use engine::{
+    explore::{
+        self,
+        Config,
+        Model,
+        Step,
+        Violation,
+    },
+    json::J,
+    report::{
+        self,
+        Finding,
+        Report,
+        Tier,
+    },
+};
+
+use crate::{
+    accounts::{
+        StateReadExt as _,
+        StateWriteExt as _,
+    },
+    checked_transaction::CheckedTransaction,
+    fees::StateWriteExt as _,
+    test_utils::{
+        astria_address,
+        nria,
+        Fixture,
+        ALICE,
+        BOB,
+        CAROL,
+        SUDO,
+    },
+};
+
+fn addr(k: &SigningKey) -> astria_core::primitive::v1::Address {
+    astria_address(&k.address_bytes())
+}
+
+fn sign_tx(signer: &SigningKey, nonce: u32, actions: Vec<Action>) -> Option<bytes::Bytes> {
+    use astria_core::Protobuf as _;
+    use prost::Message as _;
+    let body = astria_core::protocol::transaction::v1::TransactionBody::builder()
+        .nonce(nonce)
+        .chain_id("test".to_string())
+        .actions(actions)
+        .try_build()
+        .ok()?;
+    Some(bytes::Bytes::from(body.sign(signer).into_raw().encode_to_vec()))
+}
+
+const HIGH: u128 = 1_000_000;
+const EXPENSIVE: u128 = 600_000;
+
+#[derive(Clone, Copy, Debug, PartialEq, Eq, Hash, PartialOrd, Ord)]
+enum Acct {
+    Alice,
+    Sudo,
+}
+
+#[derive(Clone, Copy, Debug, PartialEq, Eq, Hash, PartialOrd, Ord)]
+enum Kind {
+    Cheap,
+    Expensive,
+    /// sudo action group (a FeeChange), only SUDO can build it
+    SudoGroup,
+}
+
+#[derive(Clone, Copy, Debug, PartialEq, Eq, Hash, PartialOrd, Ord)]
+struct TxSpec {
+    acct: Acct,
+    nonce: u32,
+    kind: Kind,
+}
+
+#[derive(Clone, Copy, Debug, PartialEq, Eq, Hash)]
+enum Ev {
+    /// insert with the chain view that is current (`true`) or the one of the last maintenance
+    Insert(usize, bool),
+    RemoveInvalid(usize),
+    /// the chain executes the account's next nonce (the pending tx with that nonce, if any, is
+    /// reported as included at the next maintenance)
+    IncNonce(Acct),
+    SetBalance(Acct, u128),
+    RaiseTransferFee,
+    Maintain,
+    AdvancePastTtl,
+}
+
+#[derive(Clone, Debug, PartialEq, Eq, Hash)]
+struct ChainView {
+    nonce: BTreeMap<Acct, u32>,
+    balance: BTreeMap<Acct, u128>,
+    fee_raised: bool,
+}
+
+impl ChainView {
+    fn initial() -> Self {
+        Self {
+            nonce: [(Acct::Alice, 0), (Acct::Sudo, 0)].into_iter().collect(),
+            balance: [(Acct::Alice, HIGH), (Acct::Sudo, HIGH)].into_iter().collect(),
+            fee_raised: false,
+        }
+    }
+}
+
+struct Pool {
+    txs: Vec<(TxSpec, Arc<CheckedTransaction>)>,
+    /// costs[fee_raised as usize][tx index], computed once by the real `total_costs`
+    costs: [Vec<HashMap<IbcPrefixed, u128>>; 2],
+    base: Snapshot,
+    metrics: &'static crate::Metrics,
+}
+
+fn key_of(a: Acct) -> &'static SigningKey {
+    match a {
+        Acct::Alice => &ALICE,
+        Acct::Sudo => &SUDO,
+    }
+}
+
+impl Pool {
+    async fn build() -> Self {
+        let fixture = Fixture::default_initialized().await;
+        let mut specs = Vec::new();
+        for nonce in 0..3u32 {
+            for kind in [Kind::Cheap, Kind::Expensive] {
+                specs.push(TxSpec {
+                    acct: Acct::Alice,
+                    nonce,
+                    kind,
+                });
+            }
+        }
+        for nonce in 0..2u32 {
+            for kind in [Kind::Cheap, Kind::SudoGroup] {
+                specs.push(TxSpec {
+                    acct: Acct::Sudo,
+                    nonce,
+                    kind,
+                });
+            }
+        }
+        let mut txs = Vec::new();
+        for s in specs {
+            let action = match s.kind {
+                Kind::Cheap => Action::Transfer(Transfer {
+                    to: addr(&BOB),
+                    amount: 1 + u128::from(s.nonce),
+                    asset: nria().into(),
+                    fee_asset: nria().into(),
+                }),
+                Kind::Expensive => Action::Transfer(Transfer {
+                    to: addr(&CAROL),
+                    amount: EXPENSIVE + u128::from(s.nonce),
+                    asset: nria().into(),
+                    fee_asset: nria().into(),
+                }),
+                Kind::SudoGroup => Action::FeeChange(FeeChange::BridgeLock(FeeComponents::new(5 + u128::from(s.nonce), 1))),
+            };
+            let bytes = sign_tx(key_of(s.acct), s.nonce, vec![action]).unwrap();
+            let checked = CheckedTransaction::new(bytes, fixture.state()).await.expect("constructible");
+            txs.push((s, Arc::new(checked)));
+        }
+        let mut pool = Self {
+            txs,
+            costs: [Vec::new(), Vec::new()],
+            base: fixture.storage().latest_snapshot(),
+            metrics: fixture.metrics(),
+        };
+        for raised in [false, true] {
+            let mut view = ChainView::initial();
+            view.fee_raised = raised;
+            let state = pool.state_for(&view);
+            let mut v = Vec::new();
+            for (_, tx) in &pool.txs {
+                v.push(tx.total_costs(&state).await.expect("total_costs"));
+            }
+            pool.costs[usize::from(raised)] = v;
+        }
+        pool
+    }
+
+    fn state_for(&self, view: &ChainView) -> StateDelta<Snapshot> {
+        let mut s = StateDelta::new(self.base.clone());
+        for (a, n) in &view.nonce {
+            s.put_account_nonce(&key_of(*a).address_bytes(), *n).unwrap();
+        }
+        for (a, b) in &view.balance {
+            s.put_account_balance(&key_of(*a).address_bytes(), &nria(), *b).unwrap();
+        }
+        if view.fee_raised {
+            s.put_fees(FeeComponents::<Transfer>::new(500_000, 0)).unwrap();
+        }
+        s
+    }
+}
+
+#[derive(Clone, Debug, PartialEq, Eq, Hash)]
+struct Observed {
+    /// acct -> [(nonce, tx index)]
+    pending: BTreeMap<Acct, Vec<(u32, usize)>>,
+    parked: BTreeMap<Acct, Vec<(u32, usize)>>,
+    /// tx index -> status label for every accepted tx
+    statuses: BTreeMap<usize, String>,
+    builder_queue: Vec<usize>,
+    len: usize,
+    chain: ChainView,
+    last_maintained: ChainView,
+    expired_clock: bool,
+}
+
+struct St {
+    hist: Vec<Ev>,
+    obs: Observed,
+}
+
+struct MempoolModel {
+    pool: Pool,
+    parked_max: usize,
+    alphabet: Vec<Ev>,
+}
+
+struct RunResult {
+    obs: Observed,
+    violation: Option<Violation>,
+}
+
+impl MempoolModel {
+    fn idx_of(&self, id: &TransactionId) -> usize {
+        self.pool.txs.iter().position(|(_, t)| t.id() == id).expect("known tx")
+    }
+
+    /// Replays `hist` on a fresh mempool under a paused clock; evaluates the oracle after the last
+    /// event.
+    fn run(&self, hist: &[Ev]) -> Result<RunResult, String> {
+        PAUSED_RT.with(|rt| rt.block_on(async {
+            let mempool = Mempool::new(self.pool.metrics, self.parked_max, 100);
+            let mut chain = ChainView::initial();
+            let mut last_maintained = chain.clone();
+            let mut accepted: BTreeSet<usize> = BTreeSet::new();
+            let mut included_pending: HashMap<TransactionId, Arc<ExecTxResult>> = HashMap::new();
+            let mut expired_clock = false;
+            let mut in_sync = true; // a maintenance has run since the last chain change
+            let mut height = 10u64;
+            let mut last_was_maintain = false;
+            let mut last_insert_current: Option<usize> = None;
+            let mut shown_nonce: BTreeMap<Acct, u32> = BTreeMap::new();
+            for (n, ev) in hist.iter().enumerate() {
+                // distinct first-seen instants, so queue order never depends on hash-map order
+                tokio::time::advance(std::time::Duration::from_millis(1)).await;
+                last_was_maintain = false;
+                last_insert_current = None;
+                match ev {
+                    Ev::Insert(i, current) => {
+                        let (spec, tx) = &self.pool.txs[*i];
+                        let view = if *current { &chain } else { &last_maintained };
+                        // CheckTx only inserts a transaction the mempool does not know (service::mempool::check_tx)
+                        if mempool.transaction_status(tx.id()).await.is_some() {
+                            continue;
+                        }
+                        let nonce = view.nonce[&spec.acct];
+                        let balances: HashMap<IbcPrefixed, u128> =
+                            [(nria().to_ibc_prefixed(), view.balance[&spec.acct])].into_iter().collect();
+                        let costs = self.pool.costs[usize::from(view.fee_raised)][*i].clone();
+                        let r = mempool.insert(tx.clone(), nonce, &balances, costs).await;
+                        shown_nonce.insert(spec.acct, nonce);
+                        if r.is_ok() {
+                            accepted.insert(*i);
+                            if *current && in_sync {
+                                last_insert_current = Some(*i);
+                            }
+                        }
+                    }
+                    Ev::RemoveInvalid(i) => {
+                        let (_, tx) = &self.pool.txs[*i];
+                        mempool.remove_tx_invalid(tx.clone(), RemovalReason::FailedExecution("verif".into())).await;
+                    }
+                    Ev::IncNonce(a) => {
+                        let cur = chain.nonce[a];
+                        // the pending transaction with this nonce (if any) is what the block executed
+                        let inner = mempool.inner.read().await;
+                        if let Some(acct) = inner.pending.txs().get(&key_of(*a).address_bytes()) {
+                            if let Some(ttx) = acct.txs().get(&cur) {
+                                included_pending.insert(*ttx.id(), Arc::new(ExecTxResult::default()));
+                            }
+                        }
+                        drop(inner);
+                        chain.nonce.insert(*a, cur + 1);
+                        in_sync = false;
+                    }
+                    Ev::SetBalance(a, b) => {
+                        chain.balance.insert(*a, *b);
+                        in_sync = false;
+                    }
+                    Ev::RaiseTransferFee => {
+                        chain.fee_raised = true;
+                        in_sync = false;
+                    }
+                    Ev::Maintain => {
+                        let state = self.pool.state_for(&chain);
+                        let recost = chain.fee_raised != last_maintained.fee_raised;
+                        height += 1;
+                        mempool.run_maintenance(&state, recost, std::mem::take(&mut included_pending), height).await;
+                        last_maintained = chain.clone();
+                        shown_nonce = chain.nonce.clone();
+                        in_sync = true;
+                        last_was_maintain = true;
+                    }
+                    Ev::AdvancePastTtl => {
+                        tokio::time::advance(TX_TTL + std::time::Duration::from_secs(1)).await;
+                        expired_clock = true;
+                    }
+                }
+                let _ = n;
+            }
+            // ------------------------------------------------------------------ observe
+            let inner = mempool.inner.read().await;
+            let mut pending: BTreeMap<Acct, Vec<(u32, usize)>> = BTreeMap::new();
+            let mut parked: BTreeMap<Acct, Vec<(u32, usize)>> = BTreeMap::new();
+            let mut pending_ids = BTreeSet::new();
+            let mut parked_ids = BTreeSet::new();
+            for a in [Acct::Alice, Acct::Sudo] {
+                if let Some(acct) = inner.pending.txs().get(&key_of(a).address_bytes()) {
+                    for (nonce, ttx) in acct.txs() {
+                        pending.entry(a).or_default().push((*nonce, self.idx_of(ttx.id())));
+                        pending_ids.insert(*ttx.id());
+                    }
+                }
+                if let Some(acct) = inner.parked.txs().get(&key_of(a).address_bytes()) {
+                    for (nonce, ttx) in acct.txs() {
+                        parked.entry(a).or_default().push((*nonce, self.idx_of(ttx.id())));
+                        parked_ids.insert(*ttx.id());
+                    }
+                }
+            }
+            let contained: BTreeSet<TransactionId> = inner.contained_txs.iter().copied().collect();
+            let parked_total = inner.parked.len();
+            drop(inner);
+            let len = mempool.len().await;
+            let mut statuses = BTreeMap::new();
+            for i in &accepted {
+                let id = self.pool.txs[*i].1.id();
+                let label = match mempool.transaction_status(id).await {
+                    None => "LOST".to_string(),
+                    Some(TransactionStatus::Pending) => "pending".into(),
+                    Some(TransactionStatus::Parked) => "parked".into(),
+                    Some(TransactionStatus::Removed(r)) => match r {
+                        RemovalReason::Expired => "removed:expired".into(),
+                        RemovalReason::NonceStale => "removed:stale".into(),
+                        RemovalReason::LowerNonceInvalidated => "removed:lower-nonce-invalidated".into(),
+                        RemovalReason::FailedExecution(_) => "removed:failed-execution".into(),
+                        RemovalReason::InternalError => "removed:internal-error".into(),
+                        RemovalReason::IncludedInBlock {
+                            ..
+                        } => "removed:included".into(),
+                    },
+                };
+                statuses.insert(*i, label);
+            }
+            let builder_queue: Vec<usize> =
+                mempool.builder_queue().await.iter().map(|t| self.idx_of(t.id())).collect();
+            let obs = Observed {
+                pending: pending.clone(),
+                parked: parked.clone(),
+                statuses: statuses.clone(),
+                builder_queue: builder_queue.clone(),
+                len,
+                chain: chain.clone(),
+                last_maintained: last_maintained.clone(),
+                expired_clock,
+            };
+            // ------------------------------------------------------------------ oracle
+            let viol = |clause: &str, signature: &str, detail: String| {
+                Some(Violation {
+                    clause: clause.to_string(),
+                    signature: signature.to_string(),
+                    detail,
+                })
+            };
+            let mut violation = None;
+            // exactly one place
+            if !pending_ids.is_disjoint(&parked_ids) {
+                violation = viol("one-place", "transaction both pending and parked", format!("{obs:?}"));
+            }
+            let union: BTreeSet<TransactionId> = pending_ids.union(&parked_ids).copied().collect();
+            if violation.is_none() && union != contained {
+                violation = viol(
+                    "one-place",
+                    "tracked set differs from pending + parked",
+                    format!("tracked {} ids, pending+parked {} ids; {obs:?}", contained.len(), union.len()),
+                );
+            }
+            if violation.is_none() && len != union.len() {
+                violation = viol("one-place", "len() differs from pending + parked", format!("len {len}; {obs:?}"));
+            }
+            // never silently lost
+            if violation.is_none() {
+                if let Some((i, _)) = statuses.iter().find(|(_, s)| *s == "LOST") {
+                    violation = viol(
+                        "no-silent-loss",
+                        "accepted transaction has no status",
+                        format!(
+                            "transaction {:?} was accepted, is in neither queue and is not reported as removed; {obs:?}",
+                            self.pool.txs[*i].0
+                        ),
+                    );
+                }
+            }
+            // consecutive pending nonces
+            if violation.is_none() {
+                for (a, list) in &pending {
+                    let nonces: Vec<u32> = list.iter().map(|x| x.0).collect();
+                    if nonces.windows(2).all(|w| w[1] == w[0] + 1) {
+                        continue;
+                    }
+                    // is the gap explained by entries below the account nonce shown most recently
+                    // (stale until the next maintenance) followed by a consecutive run from it?
+                    let shown = shown_nonce.get(a).copied().unwrap_or(0);
+                    let fresh: Vec<u32> = nonces.iter().copied().filter(|n| *n >= shown).collect();
+                    let stale_only_gap = fresh.windows(2).all(|w| w[1] == w[0] + 1) && fresh.first().map_or(true, |f| *f == shown);
+                    violation = viol(
+                        "pending-consecutive",
+                        if stale_only_gap {
+                            "pending keeps nonces below a newly shown account nonce until the next maintenance"
+                        } else {
+                            "gap in pending nonces"
+                        },
+                        format!("account {a:?} was last shown nonce {shown}; pending nonces {nonces:?}"),
+                    );
+                }
+            }
+            // builder queue: per (account, group) ascending nonce, and only pending txs
+            if violation.is_none() {
+                let mut last: BTreeMap<(Acct, bool), u32> = BTreeMap::new();
+                for i in &builder_queue {
+                    let s = self.pool.txs[*i].0;
+                    let key = (s.acct, s.kind == Kind::SudoGroup);
+                    if let Some(prev) = last.get(&key) {
+                        if *prev > s.nonce {
+                            violation = viol(
+                                "builder-order",
+                                "higher nonce before lower nonce of the same group",
+                                format!("builder queue {:?}", builder_queue.iter().map(|i| self.pool.txs[*i].0).collect::<Vec<_>>()),
+                            );
+                        }
+                    }
+                    last.insert(key, s.nonce);
+                }
+                let in_pending: BTreeSet<usize> = pending.values().flatten().map(|x| x.1).collect();
+                let in_queue: BTreeSet<usize> = builder_queue.iter().copied().collect();
+                if violation.is_none() && in_pending != in_queue {
+                    violation = viol("builder-order", "builder queue differs from pending set", format!("{obs:?}"));
+                }
+            }
+            // parked total limit
+            if violation.is_none() && parked_total > self.parked_max {
+                violation = viol("parked-limit", "parked total above the limit", format!("{parked_total} parked > {}", self.parked_max));
+            }
+            // authoritative view: right after a maintenance
+            if violation.is_none() && last_was_maintain {
+                for a in [Acct::Alice, Acct::Sudo] {
+                    let n = chain.nonce[&a];
+                    let stale = pending
+                        .get(&a)
+                        .into_iter()
+                        .chain(parked.get(&a))
+                        .flatten()
+                        .find(|(nonce, _)| *nonce < n);
+                    if let Some((nonce, _)) = stale {
+                        violation = viol(
+                            "maintenance",
+                            "used nonce remains after maintenance",
+                            format!("account {a:?} chain nonce {n}, transaction with nonce {nonce} still held; {obs:?}"),
+                        );
+                        break;
+                    }
+                    if let Some(list) = pending.get(&a) {
+                        if let Some((first, _)) = list.first() {
+                            if *first != n {
+                                violation = viol(
+                                    "maintenance",
+                                    "pending does not start at the chain nonce",
+                                    format!("account {a:?} chain nonce {n}, pending starts at {first}"),
+                                );
+                                break;
+                            }
+                        }
+                        let mut total: u128 = 0;
+                        for (_, i) in list {
+                            let costs = &self.pool.costs[usize::from(chain.fee_raised)][*i];
+                            total = total.saturating_add(costs.values().copied().sum::<u128>());
+                        }
+                        if total > chain.balance[&a] {
+                            violation = viol(
+                                "maintenance",
+                                "pending not affordable from the shown balance",
+                                format!("account {a:?} balance {} but pending costs {total}; {obs:?}", chain.balance[&a]),
+                            );
+                            break;
+                        }
+                    }
+                }
+            }
+            Ok(RunResult {
+                obs,
+                violation,
+            })
+        }))
+    }
+}
+
+thread_local! {
+    // One paused-clock runtime per worker; instants are only ever compared within one run.
+    static PAUSED_RT: tokio::runtime::Runtime = tokio::runtime::Builder::new_current_thread()
+        .enable_all()
+        .start_paused(true)
+        .build()
+        .unwrap();
+}
+
+impl Model for MempoolModel {
+    type Ev = Ev;
+    type St = St;
+
+    fn init(&self) -> St {
+        St {
+            hist: Vec::new(),
+            obs: self.run(&[]).expect("empty run").obs,
+        }
+    }
+
+    fn enabled(&self, st: &St, _hist: &[Ev]) -> Vec<Ev> {
+        self.alphabet
+            .iter()
+            .copied()
+            .filter(|ev| match ev {
+                // a stale view only differs from the current one when the chain moved on
+                Ev::Insert(_, false) => st.obs.chain != st.obs.last_maintained,
+                Ev::IncNonce(a) => st.obs.chain.nonce[a] < 2,
+                Ev::SetBalance(a, b) => st.obs.chain.balance[a] != *b,
+                Ev::RaiseTransferFee => !st.obs.chain.fee_raised,
+                Ev::AdvancePastTtl => !st.obs.expired_clock,
+                _ => true,
+            })
+            .collect()
+    }
+
+    fn step(&self, st: &St, _hist: &[Ev], ev: &Ev) -> Step<St> {
+        let mut hist = st.hist.clone();
+        hist.push(*ev);
+        match self.run(&hist) {
+            Err(e) => Step::Violated(Violation {
+                clause: "harness".into(),
+                signature: "replay failed".into(),
+                detail: e,
+            }),
+            Ok(r) => match r.violation {
+                Some(v) if v.signature.starts_with("pending keeps nonces below") => Step::Flagged(
+                    St {
+                        hist,
+                        obs: r.obs,
+                    },
+                    v,
+                ),
+                Some(v) => Step::Violated(v),
+                None => Step::Next(St {
+                    hist,
+                    obs: r.obs,
+                }),
+            },
+        }
+    }
+
+    fn canon(&self, st: &St) -> u128 {
+        // The observable structure determines the mempool's future behaviour except for the
+        // first-seen instants, which only order the builder queue (part of the observation) and
+        // decide expiry (covered by `expired_clock`).
+        report::h128(&st.obs)
+    }
+
+    fn outcome(&self, st: &St) -> u64 {
+        let mut labels: Vec<&String> = st.obs.statuses.values().collect();
+        labels.sort();
+        labels.dedup();
+        report::h64(&labels)
+    }
+}
+
+fn alphabet(pool: &Pool, thorough: bool) -> Vec<Ev> {
+    let mut v = Vec::new();
+    for i in 0..pool.txs.len() {
+        v.push(Ev::Insert(i, true));
+    }
+    v.push(Ev::Maintain);
+    for a in [Acct::Alice, Acct::Sudo] {
+        v.push(Ev::IncNonce(a));
+    }
+    v.push(Ev::SetBalance(Acct::Alice, EXPENSIVE + 100));
+    v.push(Ev::SetBalance(Acct::Alice, 0));
+    v.push(Ev::SetBalance(Acct::Alice, HIGH));
+    for i in 0..pool.txs.len() {
+        v.push(Ev::RemoveInvalid(i));
+    }
+    v.push(Ev::RaiseTransferFee);
+    v.push(Ev::AdvancePastTtl);
+    if thorough {
+        for i in 0..pool.txs.len() {
+            v.push(Ev::Insert(i, false));
+        }
+    }
+    v
+}
+
+fn ev_json(m: &MempoolModel, ev: &Ev) -> J {
+    let t = |i: &usize| {
+        let s = m.pool.txs[*i].0;
+        format!("{:?}#{}:{:?}", s.acct, s.nonce, s.kind)
+    };
+    J::s(match ev {
+        Ev::Insert(i, cur) => format!("insert {} view={}", t(i), if *cur { "current" } else { "stale" }),
+        Ev::RemoveInvalid(i) => format!("remove_invalid {}", t(i)),
+        Ev::IncNonce(a) => format!("inc_nonce {a:?}"),
+        Ev::SetBalance(a, b) => format!("set_balance {a:?} {b}"),
+        Ev::RaiseTransferFee => "raise_transfer_fee".into(),
+        Ev::Maintain => "maintain".into(),
+        Ev::AdvancePastTtl => "advance_past_ttl".into(),
+    })
+}
+
+fn ev_parse(m: &MempoolModel, s: &str) -> Ev {
+    let all = alphabet(&m.pool, true);
+    *all.iter().find(|e| ev_json(m, e).as_str() == Some(s)).unwrap_or_else(|| panic!("unknown event {s}"))
+}
+
+#[test]
+fn verif_c13() {
+    let mut rep = Report::new("C13", "mempool");
+    let thorough = report::tier() == Tier::Thorough;
+    let pool = tokio::runtime::Builder::new_current_thread().enable_all().build().unwrap().block_on(Pool::build());
+    let alphabet_all = alphabet(&pool, thorough);
+    let mut model = MempoolModel {
+        pool,
+        parked_max: 100,
+        alphabet: alphabet_all,
+    };
+    if let Some(case) = report::load_replay("C13", "mempool") {
+        model.parked_max = case.get("parked_max").and_then(J::as_int).unwrap() as usize;
+        let hist: Vec<Ev> =
+            case.get("history").and_then(J::as_arr).unwrap().iter().map(|j| ev_parse(&model, j.as_str().unwrap())).collect();
+        let a = explore::replay(&model, &hist);
+        let b = explore::replay(&model, &hist);
+        assert_eq!(format!("{a:?}"), format!("{b:?}"), "uncontrolled nondeterminism");
+        println!("REPLAY {a:?}");
+        if let Ok(Some(v)) = a {
+            rep.finding(Finding {
+                clause: v.clause,
+                signature: v.signature,
+                detail: v.detail,
+                case,
+            });
+        }
+        rep.finish();
+        return;
+    }
+    let depth = if thorough { 5 } else { 4 };
+    rep.rule(&format!(
+        "BFS over the real Mempool: every sequence of <= {depth} events from {{insert(10 transactions of 2 accounts, \
+         nonces 0..2, cheap / expensive / sudo-group; current{} chain view), remove_tx_invalid(each), chain nonce +1, \
+         balance to {{0, one expensive tx, high}}, transfer fee raised (recost), run_maintenance, clock past TTL}} x \
+         parked_max in {{1, 2, 100}}; each state is the history replayed on a fresh mempool under a paused clock; oracle \
+         on the inner containers and the public API: one place only, accepted => status known, consecutive pending nonces, \
+         builder order, parked limit, and after maintenance: no used nonce, pending starts at the chain nonce and is \
+         affordable",
+        if thorough { " and stale" } else { "" }
+    ));
+    let mut outcomes = 0;
+    for parked_max in [1usize, 2, 100] {
+        model.parked_max = parked_max;
+        let out = explore::explore(
+            &model,
+            &Config {
+                max_depth: depth,
+                workers: report::workers(),
+                time_cap: std::time::Duration::from_secs(if thorough { 2400 } else { 200 }),
+                ..Config::default()
+            },
+        );
+        println!(
+            "NOTE C13 parked_max={parked_max} depth={depth}: states={} transitions={} outcomes={} per_depth={:?} violations={}",
+            out.states,
+            out.transitions,
+            out.distinct_outcomes,
+            out.per_depth_states,
+            out.violations.len()
+        );
+        rep.add("states", out.states);
+        rep.add("transitions", out.transitions);
+        rep.add("traces_validated_against_impl", out.transitions);
+        outcomes = outcomes.max(out.distinct_outcomes);
+        if let Some(cap) = &out.cap_hit {
+            rep.cap_hit(cap);
+        }
+        for v in &out.violations {
+            let a = explore::replay(&model, &v.history);
+            let b = explore::replay(&model, &v.history);
+            assert_eq!(format!("{a:?}"), format!("{b:?}"), "uncontrolled nondeterminism");
+            rep.finding(Finding {
+                clause: v.violation.clause.clone(),
+                signature: v.violation.signature.clone(),
+                detail: format!(
+                    "parked_max={parked_max}: {} | history {:?}",
+                    v.violation.detail,
+                    v.history.iter().map(|e| ev_json(&model, e).render()).collect::<Vec<_>>()
+                ),
+                case: J::obj()
+                    .with("parked_max", J::i(parked_max))
+                    .with("history", J::arr(v.history.iter().map(|e| ev_json(&model, e)))),
+            });
+        }
+        for h in out.sample_histories.iter().take(2) {
+            rep.sample(J::obj().with("parked_max", J::i(parked_max)).with("history", J::arr(h.iter().map(|e| ev_json(&model, e)))));
+        }
+    }
+    rep.add("distinct_outcomes", outcomes);
+    rep.set_extra("depth", J::i(depth));
+    rep.assume("first-seen instants are made distinct (1 ms apart) so builder-queue order never depends on HashMap iteration order");
+    rep.assume("per-account parked limit (15) is outside the nonce alphabet and not exercised");
+    rep.finish();
+}
